@@ -215,39 +215,54 @@ func (c *vC10Conn) close() {
 	c.ws.Close()
 }
 
-// vC10Kind names a server message: type plus the discriminating sub-type.
+// vC10Kind names a server message: type plus the discriminating sub-type.  The
+// name is read with a lenient decoder (members are only scanned, so e.g. a
+// number outside the float64 range inside a payload does not matter); the full
+// ServerMessage is returned if it decodes.
 func vC10Kind(data []byte) (kind string, msg *ServerMessage) {
-	var m ServerMessage
-	if err := m.UnmarshalJSON(data); err != nil {
+	var top struct {
+		Type      string                            `json:"type"`
+		Error     *struct{ Code string }            `json:"error"`
+		Event     *struct{ Target, Type string }    `json:"event"`
+		Transient *struct{ Type string }            `json:"transient"`
+		Internal  *struct{ Type string }            `json:"internal"`
+	}
+	if !json.Valid(data) || json.Unmarshal(data, &top) != nil {
 		return "malformed", nil
 	}
-	switch m.Type {
-	case "error":
-		if m.Error == nil {
-			return "malformed", &m
-		}
-		return "error:" + m.Error.Code, &m
-	case "event":
-		if m.Event == nil {
-			return "malformed", &m
-		}
-		return "event." + m.Event.Target + "." + m.Event.Type, &m
-	case "transient":
-		if m.TransientData == nil {
-			return "malformed", &m
-		}
-		return "transient." + m.TransientData.Type, &m
-	case "internal":
-		if m.Internal == nil {
-			return "malformed", &m
-		}
-		return "internal." + m.Internal.Type, &m
-	case "welcome", "hello", "bye", "room", "message", "control", "dialout":
-		return m.Type, &m
-	case "":
-		return "malformed", &m
+	var m ServerMessage
+	if err := m.UnmarshalJSON(data); err == nil {
+		msg = &m
+	} else {
+		msg = &ServerMessage{Type: top.Type}
 	}
-	return "unknown:" + m.Type, &m
+	switch top.Type {
+	case "error":
+		if top.Error == nil {
+			return "malformed", msg
+		}
+		return "error:" + top.Error.Code, msg
+	case "event":
+		if top.Event == nil {
+			return "malformed", msg
+		}
+		return "event." + top.Event.Target + "." + top.Event.Type, msg
+	case "transient":
+		if top.Transient == nil {
+			return "malformed", msg
+		}
+		return "transient." + top.Transient.Type, msg
+	case "internal":
+		if top.Internal == nil {
+			return "malformed", msg
+		}
+		return "internal." + top.Internal.Type, msg
+	case "welcome", "hello", "bye", "room", "message", "control", "dialout":
+		return top.Type, msg
+	case "":
+		return "malformed", msg
+	}
+	return "unknown:" + top.Type, msg
 }
 
 // isSync reports whether the message is one of the harness' own barrier markers
@@ -669,6 +684,7 @@ func (w *vC10World) settle(pub string) {
 		return
 	}
 	deadline := time.Now().Add(2 * time.Second)
+	var parkedSince time.Time
 	for time.Now().Before(deadline) {
 		var found Session
 		w.hub.mu.RLock()
@@ -682,8 +698,16 @@ func (w *vC10World) settle(pub string) {
 		if found == nil {
 			return
 		}
+		// "bye" passes through the parked state on its way to removal: parked only
+		// counts if it lasts
 		if cs, ok := found.(*ClientSession); ok && expired && cs.GetClient() == nil {
-			return
+			if parkedSince.IsZero() {
+				parkedSince = time.Now()
+			} else if time.Since(parkedSince) > 25*time.Millisecond {
+				return
+			}
+		} else {
+			parkedSince = time.Time{}
 		}
 		time.Sleep(200 * time.Microsecond)
 	}
